@@ -47,7 +47,8 @@ bool g_replay_mode = false;  // death callback exits 1 (violation reproduced)
 
 __attribute__((unused)) void death_cb() {
   char b[256];
-  int n = snprintf(b, sizeof b, "D %ld %d %d %s\n", (long)g_cur_run, (int)g_cur_task, (int)g_cur_op, g_cur_op_kind);
+  // (on a line of its own even if the process dies while a buffered line is half way out)
+  int n = snprintf(b, sizeof b, "\nD %ld %d %d %s\n", (long)g_cur_run, (int)g_cur_task, (int)g_cur_op, g_cur_op_kind);
   if (__real_write(g_report_fd, b, (size_t)n) < 0) {}  // not the simulated write(2): the process may die inside library code
   if (g_replay_mode) _exit(1);
 }
